@@ -298,7 +298,22 @@ impl LuaTableField {
 
                         return Some(LuaIndexKey::Expr(LuaExpr::cast(node).unwrap()));
                     }
-                    _ => return None,
+                    _ => {
+                        // `[ 1 ] = v`: blanks and comments may follow the bracket
+                        // (same as LuaIndexExpr::get_index_key)
+                        if let Some(token) = child.as_token()
+                            && matches!(
+                                token.kind().to_token(),
+                                LuaTokenKind::TkWhitespace
+                                    | LuaTokenKind::TkEndOfLine
+                                    | LuaTokenKind::TkShortComment
+                                    | LuaTokenKind::TkLongComment
+                            )
+                        {
+                            continue;
+                        }
+                        return None;
+                    }
                 }
             } else if let Some(token) = child.as_token() {
                 if token.kind() == LuaTokenKind::TkLeftBracket.into() {
